@@ -162,7 +162,7 @@ def build() -> Check:
             elif tr[0].data["operation_id"] != "id#1":
                 bad.append((f"track_replay is called with {tr[0].data['operation_id']} instead of the operation's id", t))
         ck.ob("R2.visited-on-every-exit", f"context.py:DurableContext.{mname}", not bad, bad[0][0] if bad else "")
-    ck.floor("exits_judged", n_judged, 16)
+    ck.floor("exits_judged", n_judged, 8)
     # the branch wrapper of the concurrent executor
     cex = prog.cls("concurrency.executor", "ConcurrentExecutor")
     item = cex.methods["_execute_item_in_child_context"]
